@@ -14,9 +14,11 @@ resolved through the captured variable) and to ADDRESS_WEIGHT is the same calcul
 same direction (add/add or subtract/subtract), and ADDRESS_WEIGHT_HISTORY[(receiver, epoch+1)] receives the value saved
 in ADDRESS_WEIGHT. W2: calculate_weight truncates and clamps, so it is not additive; the weight removed at close is
 computed from the position's stored total, therefore the weight added by expand_position must depend on the stored
-position amount as well (telescoping), not only on the increment. W3: claim and the rewards query are compared as
-multisets of arithmetic/comparison/storage operations with their constant operands; the difference must be exactly the
-frozen list of claim-only operations (cap counter, claimed_amount update, state writes). W4: the `current == last
+position amount as well (telescoping), not only on the increment. W3 (as quoted): the per-epoch reward has the same
+operator skeleton in claim and in the rewards query (emission share times weight ratio, three levels deep, spelling
+normalised); in both, an epoch's cumulative emission is inserted only under a test that the map has no entry for that
+epoch; claim's per-call counter is compared with EPOCH_CLAIM_CAP so that the reward computation is reachable for
+counter values up to 100 and not for 101 (ordering-domain walk). W4: the `current == last
 claimed` test rejects before any effect and LAST_CLAIMED_EPOCH.save lies on every success path. W5: a reward transfer
 is built only when reward <= emission_per_epoch and reward + claimed <= funded (ordering-domain walk). W6:
 calculate_weight rejects durations outside [86400, 31556926] and returns max(computed, amount).
@@ -197,61 +199,113 @@ def check_snapshot_before_update(ctx, model):
         ctx.missing("C13-W2", "snapshot of the previous position amount and its increase in expand_position's update closure")
 
 
-VOC = re.compile(r"(incentive::helpers::|Uint128::(saturating_sub|checked_div|checked_add|checked_sub|checked_mul)|Decimal256::from_ratio|"
-                 r"Uint256::from_uint128|as std::ops::Mul|try_into|HashMap::(get|insert|is_empty)|cw_storage_plus::|as std::cmp::Partial|BTreeMap::)")
-BIN = set("Add Sub Mul Div Rem Lt Le Gt Ge Eq Ne AddWithOverflow SubWithOverflow MulWithOverflow".split())
-
-# claim-only operations, each with its reason
-ALLOWED_CLAIM_ONLY = Counter({
-    "bin:AddWithOverflow(_,1):u64": 2,   # epoch_count += 1 (cap counter) and current_epoch + 1 (history key)
-    "bin:Gt(_,100):u64": 1,              # epoch_count > EPOCH_CLAIM_CAP
-    "call:cosmwasm_std::Uint128::checked_add(_,_)": 1,  # flow.claimed_amount += reward (the query sums into a map instead)
-    "call:cw_storage_plus::Map::save(_,_,_,_)": 2,      # FLOWS.save, LAST_CLAIMED_EPOCH.save
-    "call:cw_storage_plus::Map::update(_,_,_,_)": 1,    # ADDRESS_WEIGHT_HISTORY.update
-    "call:incentive::helpers::delete_weight_history_for_user(_,_)": 1,
-})
+_FORMULA_OPS = ("mul", "add", "sub", "div", "from_ratio", "min", "max", "rem")
 
 
-def tokens(v):
-    c = Counter()
-    for b in sorted(v.live_blocks()):
-        bb = v.blocks[b]
-        for i, s in enumerate(bb["s"]):
-            rv = s["rv"]
-            if rv["r"] == "bin" and rv["op"] in BIN:
-                ty = v.local_ty(rv["a"]["pl"]["l"]) if rv["a"]["k"] != "const" else rv["a"]["ty"]
-                if ty in ("usize", "isize", "*const ()", "bool") or ty.startswith("*"):
-                    continue
-                ks = []
-                for o in (rv["a"], rv["b"]):
-                    k = const_of(v, o, (b, i))
-                    ks.append(str(k) if k is not None else "_")
-                c["bin:%s(%s):%s" % (rv["op"], ",".join(ks), ty)] += 1
-        t = bb["t"]
-        if t["k"] == "call" and VOC.search(mname(t)):
-            ks = []
-            for a in t["args"]:
-                k = const_of(v, a, v.at_term(b))
-                ks.append(str(k) if k is not None else "_")
-            c["call:%s(%s)" % (mname(t), ",".join(ks))] += 1
-    return c
+def skeleton(sh, depth):
+    """Operator skeleton of a normalised expression shape: arithmetic operators down to `depth`; the incentive helpers
+    (get_flow_asset_amount_at_epoch, ...) and storage loads are named; every other operand (a map lookup, a loop
+    variable, a join of several definitions, a parameter) is just a `value`."""
+    if isinstance(sh, str):
+        if sh.startswith("const("):
+            return sh
+        if sh.startswith("load("):
+            return "load(%s)" % sh[5:].split(")")[0].split("::")[-1]
+        if sh.startswith("call(") and "incentive::helpers::" in sh:
+            return re.sub(r"^.*::", "", sh[5:].split("@")[0].rstrip(">"))
+        return "value"
+    if sh and sh[0] == "phi":
+        return "value"
+    if sh[0] not in _FORMULA_OPS:
+        return sh[0] if sh[0].startswith("get_flow") else "value"
+    if depth <= 0:
+        return sh[0]
+    return (sh[0], tuple(skeleton(x, depth - 1) for x in sh[1]))
+
+
+def reward_formulas(v):
+    from ..dataflow import expr_shape, norm_shape
+    out = []
+    for b, t in v.iter_calls():
+        if re.search(r"^<cosmwasm_std::Uint256 as std::ops::Mul<cosmwasm_std::Decimal256>>::mul$|^<cosmwasm_std::Decimal256 as std::ops::Mul<cosmwasm_std::Uint256>>::mul$"
+                     r"|^cosmwasm_std::Uint(128|256)::(checked_)?mul_floor$", mname(t)):
+            parts = sorted((skeleton(norm_shape(expr_shape(v, a, v.at_term(b), depth=5)), 3) for a in t["args"][:2]), key=repr)
+            out.append((b, tuple(parts)))
+    return out
+
+
+def absent_test(v, b, c):
+    """A branch condition that tests whether a map has an entry for a key: `m.get(&k).is_none()`, `.is_some()`,
+    `m.contains_key(&k)`. Returns (map origins, key operand, at, edges taken when the entry is ABSENT) or None."""
+    if c.kind != "call" or not c.term["args"]:
+        return None
+    te, fe = cmp_true_false_edges(v, b, c)
+    n = c.callee
+    if re.search(r"(HashMap|BTreeMap)::contains_key$", n):
+        return (v.origins_of_operand(c.term["args"][0], at=v.at_term(c.block)), c.term["args"][1], v.at_term(c.block), te if c.neg else fe)
+    m = re.search(r"^std::option::Option::(is_none|is_some)$", n)
+    if m:
+        for o in v.origins_of_operand(c.term["args"][0], at=v.at_term(c.block)):
+            g = call_of(v, o)
+            if g and re.search(r"(HashMap|BTreeMap)::get$", mname(g[1])):
+                absent_when_true = (m.group(1) == "is_none") != bool(c.neg)
+                return (v.origins_of_operand(g[1]["args"][0], at=v.at_term(g[0])), g[1]["args"][1], v.at_term(g[0]), te if absent_when_true else fe)
+    return None
 
 
 def check_sibling(ctx, model):
+    """W3 (as quoted): the executed claim and the rewards query compute the per-epoch reward by the same formula, both
+    record an epoch's cumulative emission only once, and the claim's per-call cap lets exactly EPOCH_CLAIM_CAP epochs
+    through."""
     a = ctx.view(CLAIM, "C13-W3")
     b = ctx.view(REWARDS, "C13-W3")
     if a is None or b is None:
         return
-    ta, tb = tokens(a), tokens(b)
-    only_a = ta - tb
-    only_b = tb - ta
-    extra = only_a - ALLOWED_CLAIM_ONLY
-    missing = ALLOWED_CLAIM_ONLY - only_a
-    ok = not only_b and not extra and not missing
-    ctx.ob("C13-W3", "claim==get_rewards|operation-multiset", ok,
-           "claim vs rewards query: %d / %d tracked operations; query-only: %s; claim-only beyond the frozen list: %s; "
-           "frozen claim-only operations missing: %s" % (sum(ta.values()), sum(tb.values()), dict(only_b), dict(extra), dict(missing)), a.where())
-    ctx.floor("C13-W3", "tracked operations in the rewards query", sum(tb.values()), 30)
+    fa, fb = reward_formulas(a), reward_formulas(b)
+    ok = len(fa) == 1 and len(fb) == 1 and fa[0][1] == fb[0][1]
+    ctx.ob("C13-W3", "claim==get_rewards|reward-formula", ok,
+           "per-epoch reward in claim: %s ; in the rewards query: %s (operator skeletons must be identical)" % ([x[1] for x in fa], [x[1] for x in fb]),
+           a.where(fa[0][0]) if fa else a.where())
+    # an epoch's cumulative emission is recorded only when the map has no entry for that epoch yet (claim and query)
+    for v in (a, b):
+        ins = v.calls_to(r"^std::collections::(HashMap|BTreeMap)::insert$")
+        ins = [(ib, it) for ib, it in ins if any(o.proj and o.proj[-1] == "emitted_tokens" or (o.kind == "call" and "emitted_tokens" in str(o.proj))
+                                                 for o in v.origins_of_operand(it["args"][0], at=v.at_term(ib)))] or ins
+        if not ins:
+            ctx.missing("C13-W3", "emitted_tokens insert in %s" % v.path)
+            continue
+        tests = [absent_test(v, sb, c) for sb, c, _ in switch_conds(v)]
+        tests = [t for t in tests if t]
+        for ib, it in ins:
+            kos = v.origins_of_operand(it["args"][1], at=v.at_term(ib))
+            guarded = False
+            for mos, kop, kat, absent_edges in tests:
+                same_key = v.origins_of_operand(kop, at=kat) == kos or bool(v.origins_of_operand(kop, at=kat) & kos)
+                if same_key and absent_edges and v.edge_dominated(ib, absent_edges):
+                    guarded = True
+            ctx.ob("C13-W3", "%s|emission-recorded-once" % v.path, guarded,
+                   "emitted_tokens.insert(epoch, ..) happens only when the map has no entry for that epoch: %s" % guarded, v.where(ib))
+    # the cap: the loop body is entered for the first EPOCH_CLAIM_CAP epochs of a call and not for the next one
+    from ..dataflow import single_var_guard, single_var_walk
+    is_counter = lambda os_: bool(os_) and any(o.kind == "arith" for o in os_) and all(o.kind in ("arith", "const") for o in os_)
+    tracked, ths = single_var_guard(a, is_counter, [])
+    caps = {}
+    for blk, (cond, orient, k) in tracked.items():
+        at = cond_at(a, cond)
+        other = cond.b if orient == "fwd" else cond.a
+        if other is not None and any(o.kind == "item" and o.a.endswith("EPOCH_CLAIM_CAP") for o in a.origins_of_operand(other, at=at)):
+            caps[blk] = (cond, orient, k)
+    if not caps or not fa:
+        ctx.missing("C13-W3", "comparison of the per-call epoch counter with EPOCH_CLAIM_CAP in claim")
+        return
+    cap = next(iter(caps.values()))[2]
+    body = fa[0][0]
+    rows = {}
+    for x in (cap - 1, cap, cap + 1):
+        rows[str(x)] = body in single_var_walk(a, caps, x)
+    want = {str(cap - 1): True, str(cap): True, str(cap + 1): False}
+    ctx.ob("C13-W3", "%s|cap-lets-exactly-%s-epochs-through" % (CLAIM, cap), rows == want and cap == 100,
+           "reward computation reachable by epoch counter value: %s (documented: up to %s epochs per call, cap = 100)" % (rows, cap), a.where(next(iter(caps))))
 
 
 def check_claim_guards(ctx, model):
@@ -326,7 +380,7 @@ def check_weight_fn(ctx, model):
     det = []
     for o in ro:
         c = call_of(v, o)
-        if c and mname(c[1]).endswith("as std::cmp::Ord>::max"):
+        if c and re.search(r"as std::cmp::Ord>::max$|^std::cmp::max$", mname(c[1])):
             a0 = v.origins_of_operand(c[1]["args"][0], at=v.at_term(c[0]))
             a1 = v.origins_of_operand(c[1]["args"][1], at=v.at_term(c[0]))
             is_amt = lambda os_: bool(os_) and all(x.kind == "param" and x.a == 2 and not x.proj for x in os_)
